@@ -370,7 +370,15 @@ impl fmt::Display for IterableKind {
                     .join(", ")
             ),
             IterableKind::PositiveIntegers(v) => format!("{:?}", v),
-            IterableKind::Strings(v) => format!("{:?}", v),
+            // the text between the quotes is kept as written (escapes included), so it is written
+            // back as it is: the debug form would escape the escapes again
+            IterableKind::Strings(v) => format!(
+                "[{}]",
+                v.iter()
+                    .map(|string| format!("\"{}\"", string))
+                    .collect::<Vec<_>>()
+                    .join(", ")
+            ),
             IterableKind::Edges(v) => format!("{:?}", v),
             IterableKind::Nodes(v) => format!("{:?}", v),
             IterableKind::Tuples(v) => format!("{:?}", v),
